@@ -330,10 +330,20 @@ def judge_sheet(sh, al, rules, res, text, nodes, reversed_res=None):
     # second law through trimming: a target that is a whole member `T R` of a rule's list (one compound) extended by a
     # multi-compound extender `A B` always generates `A B.R`; it may only be dropped from the output when what covers its
     # elements there is at least as specific as the extender
-    if "(" not in text and "::" not in text and "@media" not in text:
+    # (not judged when an extender's own selector contains a target of the sheet: the extender is then itself rewritten
+    # by the other extensions, what it generates descends from the rewritten forms, and which of them exist depends on the
+    # order of the rules -- the territory of the order-dependence findings, not of this law)
+    _targets = {t for rr in rules for t, _ in rr["extends"]}
+    _ext_simples = {sel.simple_text(s_) for jj, rr in enumerate(rules) if rr["extends"] for cx2 in parsed[jj] for _, cp2 in cx2 for s_ in cp2}
+    if "(" not in text and "::" not in text and "@media" not in text and not (_targets & _ext_simples):
+        first_ext = min([jj for jj, rr in enumerate(rules) if rr["extends"]] or [len(rules)])
         for i, r in enumerate(rules):
             new = outp.get(i)
-            if new is None:
+            if new is None or i > first_ext:
+                # (only rules declared before every extending rule are judged: when an extender precedes the rule, which
+                # generated selectors survive depends on the order in which the extensions reach the rule -- the
+                # order-dependence findings again; `[t] {@extend %p} [t]%p {} a ~ .y[t] ~ [t] {@extend %p}` keeps only `[t]`
+                # while the same sheet with the rule first keeps all three)
                 continue
             for member in parsed[i]:
                 if len(member) != 1:
@@ -353,7 +363,8 @@ def judge_sheet(sh, al, rules, res, text, nodes, reversed_res=None):
                             # selector that no other extender in the sheet shares)
                             others = {sel.simple_text(s_) for jj, r2 in enumerate(rules) if r2["extends"] for cx2 in parsed[jj] if cx2 is not ecx
                                       for _, cp2 in cx2 for s_ in cp2}
-                            if all(sel.simple_text(s_) in others for _, cp2 in ecx for s_ in cp2):
+                            # (`*` does not count: it vanishes when the compound is unified with other simple selectors)
+                            if all(sel.simple_text(s_) in others or s_[0] == "univ" for _, cp2 in ecx for s_ in cp2):
                                 continue
                             last = unify_simple(ecx[-1][1], rest)
                             if last is None:
